@@ -5,7 +5,9 @@
 set -e
 d=/tmp/verif-scratch-$1
 mkdir -p "$d/build"
-rsync -a --delete --exclude /target --exclude /.git /repo/ "$d/repo/"
+# a git worktree-free clone, so that experiments can `git apply` / `git checkout -- .` in it
+if [ ! -d "$d/repo/.git" ]; then rm -rf "$d/repo"; git clone -q --no-hardlinks /repo "$d/repo"; cp /repo/Cargo.lock "$d/repo/" 2>/dev/null; fi
+(cd "$d/repo" && git fetch -q origin && git checkout -q --detach "$(git -C /repo rev-parse HEAD)" 2>/dev/null; git checkout -q -- .)
 rsync -a --delete /verif/harness/ "$d/harness/"
 find "$d/harness" -name Cargo.toml -o -name build.rs -o -name config.toml | xargs sed -i "s|/repo|$d/repo|g; s|/verif/.build/target|$d/build/target|g"
 echo "export WOWM_REPO=$d/repo VERIF_HARNESS=$d/harness VERIF_BUILD=$d/build"
